@@ -109,7 +109,8 @@ Mis(pre, r, ev) ==
                          "trace-records", "C17", o.trs, ev.trs)
        ELSE <<>>)
    \o ClauseMis(pre, o, ev.cl)
-   \o Chk(ev.fl = Flags(post), "flags", "C03 C01 C02 C07 C05 C14", Flags(post), ev.fl)
+   \o IF post.unspec THEN <<>> ELSE
+      Chk(ev.fl = Flags(post), "flags", "C03 C01 C02 C07 C05 C14", Flags(post), ev.fl)
    \o Chk(ev.mon = MonFlags(post), "monitor-flags", "C13 C05", MonFlags(post), ev.mon)
    \o Chk(ev.comp = Completed(post), "is_completed", "C06 C05", Completed(post), ev.comp)
 
